@@ -406,9 +406,14 @@ def decide(ob, tier='quick', seed=0):
 
 def _decide(ob, tier, res):
     t_begin = time.time()
-    budget = getattr(ob, 'budget_s', 100) if tier != 'thorough' else getattr(ob, 'budget_thorough_s', 1200)
+    budget = getattr(ob, 'budget_s', 100)
     if tier == 'thorough':
-        ob.timeout_s = max(ob.timeout_s, ob.timeout_thorough_s)
+        # the thorough tier is sized by total wall time: per-query and per-obligation caps (raise them through the
+        # environment for a longer run; what is not decided within them is reported inconclusive)
+        qcap = float(os.environ.get('SYMX_THOROUGH_QUERY_CAP_S', '150'))
+        bcap = float(os.environ.get('SYMX_THOROUGH_BUDGET_S', '480'))
+        ob.timeout_s = max(ob.timeout_s, min(ob.timeout_thorough_s, qcap))
+        budget = max(budget, min(getattr(ob, 'budget_thorough_s', 1200), bcap))
     mk = _Mk()
     explorer = Explorer(domain=[], max_paths=ob.max_paths, budget_s=budget / 2.0)
     # domain needs variable names: run build once lazily -> we collect names as mk is called.
@@ -581,6 +586,10 @@ def _decide(ob, tier, res):
             else:
                 _handle_witness(ob, enc, c, ct, zc, zbase + extra, v, label, res, cache)
     if not any_reachable:
+        if getattr(ob, 'allow_vacuous', False):
+            # a case split whose case cannot occur under the domain (stated by the harness): nothing to decide
+            res['vacuous_case'] = True
+            return
         raise RuntimeError('vacuous obligation: no path is reachable under the domain')
     # cross-path claims (e.g. continuity across a branch): the harness gets every returning
     # path's (condition, outputs) and yields (label, [assumption Terms], claim Term, numeric_check)
